@@ -29,6 +29,13 @@ def run(ctx):
     ctx.rules[-1].id = 'C16.S1'
     for i in ctx.rules[-1].instances:
         i.rule = 'C16.S1'
+    # the commitment rule of CheckBlock runs whenever the stored witness tree is non-empty: how that tree (and the
+    # "has witness data" decision) is built is part of the block-acceptance rule set
+    from . import c15
+    c15.rule_trees(ctx, repo)
+    ctx.rules[-1].id = 'C16.W1'
+    for i in ctx.rules[-1].instances:
+        i.rule = 'C16.W1'
     ctx.not_decided += ['the values of sizes and hashes (serialisation: C01; merkle arithmetic: C15)']
     ctx.assume('serialisation layouts as decided by C01; proof-of-work rules as decided by C17')
 
@@ -59,9 +66,20 @@ def expect(r, key, fi, guards, accepted, errcls, what, measure=None):
             else:
                 r.violated(key, common.site_of(fi, n), '%s is signalled by %s, not %s' % (what, cls, errcls))
             return n
+    mention = measure
+    if isinstance(measure, tuple):
+        measure, mention = measure
     near = [(g, n) for g, cls, n in guards if measure and measure in g]
     if near:
+        from ..rules import equiv as _eq
+        v_ = _eq(near[0][0], accepted[0])
+        if v_ is True:
+            r.ok(key, common.site_of(fi, near[0][1]), '%s: `%s`' % (what, near[0][0]))
+            return near[0][1]
         r.violated(key, common.site_of(fi, near[0][1]), '%s: the guard is `%s`, the rule is `%s`' % (what, near[0][0], accepted[0]))
+    elif mention and mention in ast.unparse(fi.node):
+        # the measured quantity is still used, in a construct that is not a plain raising guard: cannot tell
+        r.undecided(key, fi.site, '%s: `%s` is not tested by a raising guard of a recognised form (reference rule `%s`)' % (what, measure, accepted[0]))
     else:
         r.violated(key, fi.site, '%s: no raising guard `%s` in %s' % (what, accepted[0], fi.name))
     return None
@@ -103,29 +121,47 @@ def rule_tx(ctx, repo):
                 'total-range:running', common.site_of(fi, n3), 'the total is updated before each range test', 'the running total is not accumulated before the range test inside the loop')
     init = [norm(s.value) for s in walk_no_nested(fi.node) if isinstance(s, ast.Assign) and norm(s.targets[0]) == 'nValueOut']
     r.check(init == ['0'], 'total-range:starts-at-zero', fi.site, 'total starts at 0', 'nValueOut is initialised as %s' % init)
-    n4 = expect(r, 'duplicate-inputs', fi, gs, ['txin.prevout in vin_outpoints'], E, 'an outpoint spent twice is refused', 'prevout in')
+    n4 = expect(r, 'duplicate-inputs', fi, gs, ['txin.prevout in vin_outpoints'], E, 'an outpoint spent twice is refused', ('prevout in', 'vin_outpoints'))
     if n4 is not None:
         it, lp = loop_over(fi, n4)
         adds = [norm(s) for s in lp.body] if lp else []
         r.check(it == '%s.vin' % tx and 'vin_outpoints.add(txin.prevout)' in adds, 'duplicate-inputs:all-inputs', common.site_of(fi, n4), 'every input is recorded and tested',
                 'duplicate detection ranges over `%s` / records %s' % (it, adds))
     # coinbase branch
-    cb = [n for n in walk_no_nested(fi.node) if isinstance(n, ast.If) and norm(n.test) == '%s.is_coinbase()' % tx]
+    cb = [n for n in walk_no_nested(fi.node) if isinstance(n, ast.If) and norm(n.test) in ('%s.is_coinbase()' % tx, 'not %s.is_coinbase()' % tx)]
     if len(cb) != 1:
         r.violated('coinbase-branch', fi.site, 'no `if tx.is_coinbase(): ... else: ...` split')
     else:
         c = cb[0]
+        if norm(c.test).startswith('not '):
+            # the same split with the arms written the other way round
+            c = ast.If(test=c.test.operand, body=c.orelse, orelse=c.body)
+            ast.copy_location(c, cb[0])
         g1 = [(canon_guard(n.test, repo, fi.module), n) for n in ast.walk(ast.Module(body=c.body, type_ignores=[])) if isinstance(n, ast.If)]
-        ok = [g for g, n in g1 if g in ('len(%s.vin[0].scriptSig) < 2 or len(%s.vin[0].scriptSig) > 100' % (tx, tx),)]
+        from ..rules import equiv as _eq
+        ldefs = common.local_defs(fi)
+
+        def unlocal(g):
+            # a length held in a local (n = len(tx.vin[0].scriptSig)) speaks about the same quantity
+            for k_, v_ in ldefs.items():
+                if isinstance(v_, ast.Call) and norm(v_.func) == 'len':
+                    g = re.sub(r'\b%s\b' % re.escape(k_), norm(v_), g)
+            return g
+        ok = [g for g, n in g1 if _eq(unlocal(g), 'len(%s.vin[0].scriptSig) < 2 or len(%s.vin[0].scriptSig) > 100' % (tx, tx)) is True]
         if ok:
             r.ok('coinbase-script-size', common.site_of(fi, c), 'coinbase script must be 2..100 bytes')
         else:
             r.violated('coinbase-script-size', common.site_of(fi, c), 'coinbase script length rule is %s; reference: refuse unless 2 <= len <= 100' % [g for g, n in g1])
         g2 = [(canon_guard(n.test, repo, fi.module), n) for n in ast.walk(ast.Module(body=c.orelse, type_ignores=[])) if isinstance(n, ast.If)]
         ok2 = [n for g, n in g2 if g == 'txin.prevout.is_null()']
+        q2 = [n for g, n in g2 if g == 'any((x.prevout.is_null() for x in %s.vin))' % tx]
         if ok2:
             it, lp = loop_over(fi, ok2[0])
             r.check(it == '%s.vin' % tx, 'null-prevout', common.site_of(fi, ok2[0]), 'no input of a non-coinbase may be null (all inputs)', 'the null-prevout rule ranges over `%s`' % it)
+        elif q2:
+            r.ok('null-prevout', common.site_of(fi, q2[0]), 'no input of a non-coinbase may be null (all inputs, quantified)')
+        elif 'is_null' in ast.unparse(ast.Module(body=c.orelse, type_ignores=[])):
+            r.undecided('null-prevout', common.site_of(fi, c), 'the null-prevout test of non-coinbase transactions is written in a form that is not recognised: %s' % [g for g, n in g2])
         else:
             r.violated('null-prevout', common.site_of(fi, c), 'non-coinbase transactions are not checked for null prevouts')
     classes_ = {cls for g, cls, n in gs}
@@ -172,8 +208,9 @@ def rule_block(ctx, repo):
     r.check(it in ('%s.vtx' % blk, 'enumerate(%s.vtx)' % blk), 'per-tx-loop:all-transactions', common.site_of(fi, lp), 'ranges over every transaction',
             'the per-transaction loop ranges over `%s`: CheckTransaction, the duplicate-txid test and the sigop count skip part of the block (the coinbase must be checked too)' % it)
     lg = [(canon_guard(n.test, repo, fi.module), n) for n in ast.walk(lp) if isinstance(n, ast.If)]
-    second_cb = [g for g, n in lg if g in ('%s > 0 and %s.is_coinbase()' % (iv, tv), '%s.is_coinbase()' % tv)]
-    r.check(bool(second_cb) and (it.startswith('enumerate') and second_cb[0].startswith('%s > 0' % iv)), 'no-other-coinbase', common.site_of(fi, lp), 'any later coinbase is refused',
+    from ..rules import equiv as _eq
+    second_cb = [g for g, n in lg if iv is not None and _eq(g, '%s > 0 and %s.is_coinbase()' % (iv, tv), domain={iv: (0, None)}) is True]
+    r.check(bool(second_cb) and it.startswith('enumerate'), 'no-other-coinbase', common.site_of(fi, lp), 'any later coinbase is refused',
             'the "more than one coinbase" test is %s for a loop over %s' % (second_cb or [g for g, n in lg], it))
     calls = [norm(s) for s in lp.body]
     r.check('CheckTransaction(%s)' % tv in calls, 'check-transaction', common.site_of(fi, lp), 'CheckTransaction on every transaction', 'CheckTransaction is not called unconditionally in the loop')
@@ -202,7 +239,8 @@ def rule_block(ctx, repo):
     r.check(ok, 'witness-nonce', common.site_of(fi, mk[0]), 'coinbase witness is exactly one 32-byte item', 'coinbase witness nonce rules are %s' % nonce_rules)
     root = [norm(s.value) for s in ast.walk(mk[0]) if isinstance(s, ast.Assign) and norm(s.targets[0]) == 'root']
     commit = [norm(s.value) for s in ast.walk(mk[0]) if isinstance(s, ast.Assign) and norm(s.targets[0]) == 'commit']
-    r.check(root == ['%s.vWitnessMerkleTree[-1]' % blk] and commit == ['commit_script[6:6 + 32]'], 'witness-commitment:operands', common.site_of(fi, mk[0]),
+    from ..rules import canon_arith as _ca
+    r.check(root == ['%s.vWitnessMerkleTree[-1]' % blk] and [_ca(c_) for c_ in commit] == [_ca('commit_script[6:6 + 32]')], 'witness-commitment:operands', common.site_of(fi, mk[0]),
             'witness root and bytes 6..38 of the commitment output', 'root=%s commit=%s' % (root, commit))
     classes_ = {cls for g, cls, n in gs}
     r.check(classes_ <= {E}, 'error-class', fi.site, 'every rejection is CheckBlockError', 'CheckBlock rejects with %s' % sorted(str(c) for c in classes_ - {E}))
@@ -240,6 +278,19 @@ def rule_helpers(ctx, repo):
     ls = repo.get_function(CORE + 'GetLegacySigOpCount')
     accs = sorted(norm(n) for n in ast.walk(ls.node) if isinstance(n, ast.AugAssign))
     loops = sorted(norm(n.iter) for n in ast.walk(ls.node) if isinstance(n, ast.For))
+    # the summed terms as (sequence, element term with the bound variable written x), for loops and sum(<generator>) alike
+    terms = set()
+    for n in ast.walk(ls.node):
+        if isinstance(n, ast.For) and isinstance(n.target, ast.Name):
+            for a_ in ast.walk(n):
+                if isinstance(a_, ast.AugAssign) and isinstance(a_.op, ast.Add):
+                    terms.add((norm(n.iter), re.sub(r'\b%s\b' % re.escape(n.target.id), 'x', norm(a_.value))))
+        if isinstance(n, ast.Call) and norm(n.func) == 'sum' and len(n.args) == 1 and isinstance(n.args[0], (ast.GeneratorExp, ast.ListComp)):
+            g_ = n.args[0]
+            if len(g_.generators) == 1 and not g_.generators[0].ifs and isinstance(g_.generators[0].target, ast.Name):
+                terms.add((norm(g_.generators[0].iter), re.sub(r'\b%s\b' % re.escape(g_.generators[0].target.id), 'x', norm(g_.elt))))
+    if terms == {('tx.vin', 'x.scriptSig.GetSigOpCount(False)'), ('tx.vout', 'x.scriptPubKey.GetSigOpCount(False)')}:
+        accs, loops = ['nSigOps += txin.scriptSig.GetSigOpCount(False)', 'nSigOps += txout.scriptPubKey.GetSigOpCount(False)'], ['tx.vin', 'tx.vout']
     r.check(accs == ['nSigOps += txin.scriptSig.GetSigOpCount(False)', 'nSigOps += txout.scriptPubKey.GetSigOpCount(False)'] and loops == ['tx.vin', 'tx.vout'], 'legacy-sigops', ls.site,
             'inaccurate count over every scriptSig and scriptPubKey', 'GetLegacySigOpCount sums %s over %s' % (accs, loops))
     blk = repo.get_class(CORE + 'CBlock')
@@ -248,9 +299,26 @@ def rule_helpers(ctx, repo):
     magic = repo.module_value(gi.module, 'WITNESS_COINBASE_SCRIPTPUBKEY_MAGIC')
     r.check(magic == bytes([0x6a, 0x24, 0xaa, 0x21, 0xa9, 0xed]), 'commitment-magic', gi.site, '6a24aa21a9ed', 'commitment magic is %r' % (magic,))
     want_g = 'len(script) > 37 and script[:6] == %r' % (bytes([0x6a, 0x24, 0xaa, 0x21, 0xa9, 0xed]),)
-    r.check(want_g in gs, 'commitment-index', gi.site, 'last output of at least 38 bytes starting with the magic', 'commitment search tests %s' % gs)
-    loops = [norm(n.iter) for n in ast.walk(gi.node) if isinstance(n, ast.For)]
-    r.check(loops == ['enumerate(self.vtx[0].vout)'], 'commitment-index:coinbase-outputs', gi.site, 'searched in the coinbase outputs, last match wins', 'commitment searched in %s' % loops)
+    from ..rules import equiv as _eq2
+    src_gi = ast.unparse(gi.node)
+    conds = list(gs)
+    for n in ast.walk(gi.node):
+        if isinstance(n, ast.comprehension):
+            conds.extend(canon_guard(i_, repo, gi.module) for i_ in n.ifs)
+    hit = [g for g in conds if _eq2(re.sub(r'\b\w+\[:6\]', 'script[:6]', re.sub(r'len\(\w+\)', 'len(script)', g)), want_g) is True]
+    if hit:
+        r.ok('commitment-index', gi.site, 'last output of at least 38 bytes starting with the magic')
+    elif any('[:6]' in g or 'len(' in g for g in conds) and ('aa!' in src_gi or 'MAGIC' in src_gi or '6]' in src_gi) and any('37' in g or '38' in g or '[:6]' in g for g in conds):
+        r.violated('commitment-index', gi.site, 'commitment search tests %s; reference: at least 38 bytes and the first six equal to the magic' % conds)
+    else:
+        r.undecided('commitment-index', gi.site, 'commitment search tests %s' % conds)
+    loops = [norm(n.iter) for n in ast.walk(gi.node) if isinstance(n, (ast.For, ast.comprehension))]
+    if any(l_ == 'enumerate(self.vtx[0].vout)' for l_ in loops):
+        r.ok('commitment-index:coinbase-outputs', gi.site, 'searched in the coinbase outputs, last match wins')
+    elif any('vout' in l_ for l_ in loops):
+        r.undecided('commitment-index:coinbase-outputs', gi.site, 'commitment searched in %s' % loops)
+    else:
+        r.violated('commitment-index:coinbase-outputs', gi.site, 'commitment searched in %s' % loops)
 
 
 def rule_guards(ctx, repo):
@@ -311,6 +379,16 @@ def rule_guards(ctx, repo):
                         ok = True
                     if not ok and base == '%s.vtx[0].vout' % blk:
                         ok = True  # index returned by get_witness_commitment_index (raises when absent)
+                    if not ok:
+                        # any spelling of the guard: the conditions that hold where the subscript is evaluated (enclosing
+                        # tests, earlier guard clauses, short-circuit operands to its left) must imply len(base) > 0
+                        from ..escape import implied_at
+                        lb = base
+                        for k_, v_ in common.local_defs(fi).items():
+                            if base == k_ or base.startswith(k_ + '[') or base.startswith(k_ + '.'):
+                                pass
+                        if implied_at(repo, fi, sub, 'len(%s) > 0' % base) is True:
+                            ok = True
                     r.check(ok, key, common.site_of(fi, sub), 'guarded', '`%s` is indexed before any test that it is non-empty: a crafted block raises IndexError instead of a validation error' % norm(sub))
     if n == 0:
         r.undecided('subscripts', fi.site, 'no constant-index subscripts found')
